@@ -29,27 +29,47 @@ def solver_delta(before: dict) -> dict:
 class SymArch:
     """A module universe with one symbolic import relation, a var pool and helpers."""
 
-    def __init__(self, nodes: list[str], tag: str = "e", extra_no_var=(), level_limit=None) -> None:
+    def __init__(self, nodes: list[str], tag: str = "e", extra_no_var=(), level_limit=None, window=None, background=()) -> None:
+        """window / background (large universes): only the ordered pairs in ``window`` carry a symbolic atom; every
+        other pair is concrete - an import iff it is listed in ``background``.  The reference formulas then see
+        z3 constants for the concrete pairs, so one query still quantifies over every relation that agrees with the
+        background outside the window."""
         self.nodes = list(nodes)
         self.tag = tag
-        self.ev, self.sym = symbolic_architecture(self.nodes, tag=tag, no_var=extra_no_var, level_limit=level_limit)
+        edge_fn = None
+        self.window = None
+        if window is not None:
+            win = {tuple(p) for p in window}
+            bg = {tuple(p) for p in background} - win
+            self.window, self._bg = win, bg
+
+            def edge_fn(x, y, _win=win, _bg=bg, _tag=tag):
+                if (x, y) in _win:
+                    return ENGINE.branch((_tag, x, y)) == 1
+                return (x, y) in _bg
+
+        self.ev, self.sym = symbolic_architecture(self.nodes, tag=tag, edge_fn=edge_fn, no_var=extra_no_var, level_limit=level_limit)
         self.pool = VarPool()
-        self.pairs = self.sym.var_pairs()
-        self.pairset = set(self.pairs)
+        self.all_pairs = self.sym.var_pairs()
+        self.pairs = self.all_pairs if self.window is None else [p for p in self.all_pairs if p in self.window]
+        self.pairset = set(self.all_pairs)
+        self.background = [] if self.window is None else [p for p in self.all_pairs if p in self._bg]
         for p in self.pairs:
             self.var(*p)
 
     def var(self, x: str, y: str):
+        if self.window is not None and (x, y) not in self.window:
+            return z3.BoolVal((x, y) in self._bg)
         return self.pool((self.tag, x, y))
 
     def usable(self, p) -> bool:
         return p in self.pairset
 
     def edges_of(self, assign: dict) -> list[tuple[str, str]]:
-        return [(x, y) for (x, y) in self.pairs if assign.get((self.tag, x, y), 0) == 1]
+        return [(x, y) for (x, y) in self.pairs if assign.get((self.tag, x, y), 0) == 1] + list(self.background)
 
     def model_edges(self, model) -> list[tuple[str, str]]:
-        return [(x, y) for (x, y) in self.pairs if z3.is_true(model.eval(self.var(x, y), model_completion=True))]
+        return [(x, y) for (x, y) in self.pairs if z3.is_true(model.eval(self.var(x, y), model_completion=True))] + list(self.background)
 
     def real(self, edges):
         return real_architecture(self.nodes, edges)
